@@ -33,6 +33,7 @@ MUTS = {
  "M21-revert-body-opsets-fix": ("src/spox/_build.py", ".with_opset(\n                *self.model_opset_req\n            )", ""),
  "M22-with-opset-shares-build-cache": ("src/spox/_graph.py", "self, _extra_opset_req=extra_opset_req, _build_result=_build.Cached()", "self, _extra_opset_req=extra_opset_req"),
  "M23-model-req-misses-extra": ("src/spox/_build.py", "set(self.main._extra_opset_req or ()).union(", "set().union("),
+ "H3-model-req-from-main-graph-only": ("src/spox/_build.py", "*(node.opset_req for graph in self.graphs for node in self.scope_own[graph])", "*(node.opset_req for node in self.scope_own[self.main])"),
 }
 # several edits at once: (name, [(file, old, new), ...])
 MULTI = {
